@@ -80,6 +80,8 @@ def detect(d, checks):
             return {"error": "patch does not apply: " + msg[-200:]}
         for c in checks:
             env = dict(os.environ, VERIF_REPO=dst, VERIF_NO_EVIDENCE="1")
+            if not os.environ.get("VERIF_WITH_COMPILED"):
+                env["VERIF_NO_COMPILED"] = "1"      # (a mypyc build per scratch copy costs ~25 s; opt in)
             r = subprocess.run([os.path.join(VERIF, "check"), c, "--tier", "quick"], env=env, capture_output=True,
                                text=True, cwd=VERIF)
             sigs = re.findall(r"signature=(\{.*?\}) count=(\d+)", r.stdout)
